@@ -951,7 +951,7 @@ class FGen:
                 t, v = self.tyop(p); E('return %s;' % v)
             return
         if op == 'unreachable':
-            E('__CPROVER_assert(0, "UB: llvm unreachable executed"); __CPROVER_assume(0);')
+            E('__CPROVER_assert(VF_DEP(0), "UB: llvm unreachable executed"); __CPROVER_assume(0);')
             return
         if op == 'resume':
             E('__unw = 1; ' + self.ret_default())
@@ -1005,7 +1005,7 @@ class FGen:
         if bare.startswith('llvm.'):
             d = None if isvoid else self.var(dst, rty)
             if bare.startswith('llvm.assume'):
-                E('__CPROVER_assert(%s, "UB: llvm.assume violated"); __CPROVER_assume(%s);' % (a[0], a[0]))
+                E('__CPROVER_assert(VF_DEP(%s), "UB: llvm.assume violated"); __CPROVER_assume(%s);' % (a[0], a[0]))
             elif bare.startswith(('llvm.memcpy', 'llvm.memmove')):
                 E('if (%s) memmove(%s, %s, %s);' % (a[2], a[0], a[1], a[2]))
             elif bare.startswith('llvm.memset'):
@@ -1073,7 +1073,7 @@ class FGen:
             elif bare.startswith('llvm.ctpop'):
                 E('%s = (%s)__builtin_popcountll((unsigned long long)%s);' % (d, self.G.cty(rty), a[0]))
             elif bare.startswith('llvm.trap') or bare.startswith('llvm.ubsantrap'):
-                E('__CPROVER_assert(0, "ABORT: llvm.trap reached"); __CPROVER_assume(0);')
+                E('__CPROVER_assert(VF_DEP(0), "ABORT: llvm.trap reached"); __CPROVER_assume(0);')
             else:
                 raise NotImplementedError('intrinsic ' + bare)
             if op == 'invoke':
@@ -1341,12 +1341,12 @@ class Translator:
             params = ', '.join('%s a%d' % (G.cty(t), i) for i, t in enumerate(ptys)) or 'void'
             isvoid = isinstance(M.resolve(ret), VoidTy)
             if is_abort_entry(name):
-                decl_lines.append('%s %s(%s) { __CPROVER_assert(0, "ABORT: process abort reached"); __CPROVER_assume(0); }' % (G.cty(ret), cn, params))
+                decl_lines.append('%s %s(%s) { __CPROVER_assert(VF_DEP(0), "ABORT: process abort reached"); __CPROVER_assume(0); }' % (G.cty(ret), cn, params))
             elif is_alloc_entry(name):
                 if isinstance(M.resolve(ret), PtrTy):
                     decl_lines.append('%s %s(%s) { return vf_alloc_stub(%s); }' % (G.cty(ret), cn, params, 'a0' if ptys else '1'))
                 else:
-                    decl_lines.append('%s %s(%s) { __CPROVER_assert(0, "ALLOC: allocator called"); %s}' % (
+                    decl_lines.append('%s %s(%s) { __CPROVER_assert(VF_DEP(0), "ALLOC: allocator called"); %s}' % (
                         G.cty(ret), cn, params, '' if isvoid else 'return (%s)0; ' % G.cty(ret)))
             else:
                 decl_lines.append('%s %s(%s) { __unw = 1; __panics++; %s}' % (
